@@ -490,6 +490,12 @@ func genC08(g *G) {
 			emitParse("-", "p", 70000, "::1 x\n"+long+"\n::1 y\n", "")
 		}
 	}
+	// names that are long in UTF-8 but short in Punycode, long-zone addresses
+	idn := []string{strings.Repeat(strings.Repeat("ä", 55)+".", 4) + "com", strings.Repeat(strings.Repeat("я", 30)+".", 4) + strings.Repeat("я", 30),
+		strings.Repeat(strings.Repeat("é", 55)+".", 3) + "Example.ORG", strings.Repeat("я.", 126) + "com"}
+	for i, n := range append(idn, longIDNNames()[:6]...) {
+		emitParse("N"+HS("idn"), kinds[i%len(kinds)], 0, "1.2.3.4 first\n::1 "+n+" second\nfe80::1%"+strings.Repeat("z", 50)+" "+n+"\n1.2.3.4 last", mkScript(40))
+	}
 	for _, f := range []string{"", "\n", "\r\n", "\r", "1.2.3.4 a", "1.2.3.4 a\n", "1.2.3.4 a\r\n", "bad\n1.2.3.4 a\nbad2\n\n::1 b", "#\n#\n#"} {
 		for _, k := range kinds {
 			emitParse("N"+HS("src"), k, 0, f, "")
